@@ -463,6 +463,134 @@ Qed.
 Theorem to_mpoly_den c : mp_den rho (to_mpoly K c) = den c.
 Proof. by rewrite /to_mpoly mp_den_of_terms den_terms. Qed.
 
+(* ---- shl (with the repaired ensure_capacity): the swap loop moves entry k to k+n *)
+Definition shl_step (n : nat) (l0 : seq coef) (i : nat) : seq coef :=
+  if isz (c_nth i l0) then l0 else c_upd i (c_nth (i + n) l0) (c_upd (i + n) (c_nth i l0) l0).
+
+Lemma shl_loop_den n old cs : (0 < n)%N -> (old + n <= length cs)%coq_nat ->
+  (forall p, (old <= p)%N -> den (c_nth p cs) = 0) ->
+  forall i, (i <= old)%N ->
+  let l := foldl (shl_step n) cs (rev (iota i (old - i))) in
+  length l = length cs /\
+  forall p, den (c_nth p l) =
+    if [&& (n <= p)%N, (i <= p - n)%N & (p - n < old)%N] then den (c_nth (p - n) cs)
+    else if (i <= p)%N then 0 else den (c_nth p cs).
+Proof.
+move=> Hn Hlen Hz i Hi.
+have [m Hm] : exists m, (old - i = m)%N by eexists.
+elim: m i Hi Hm => [|m IH] i Hi Hm.
+  have Ei : i = old by lia.
+  rewrite Hm /=; split=> // p; subst i.
+  case: ifP => [/and3P[H1 H2 H3]|_]; first by lia.
+  by case: ifP => // Hp; apply: Hz.
+have Hi' : (i.+1 <= old)%N by lia.
+have Hm' : (old - i.+1 = m)%N by lia.
+have [L J] := IH _ Hi' Hm'.
+rewrite Hm /= rev_cons -cats1 foldl_cat /= -Hm'.
+set l := foldl _ _ _ in L J *.
+have Di : den (c_nth i l) = den (c_nth i cs).
+  rewrite J; have -> : [&& (n <= i)%N, (i.+1 <= i - n)%N & (i - n < old)%N] = false by lia.
+  by rewrite ltnn.
+have Din : den (c_nth (i + n) l) = 0.
+  rewrite J; have -> : [&& (n <= i + n)%N, (i.+1 <= i + n - n)%N & (i + n - n < old)%N] = false by lia.
+  by have -> : (i < i + n)%N by lia.
+(* both branches leave the same denotations *)
+suff G : length (shl_step n l i) = length cs /\
+         forall p, den (c_nth p (shl_step n l i)) =
+           if p == (i + n)%N then den (c_nth i cs) else if p == i then 0 else den (c_nth p l).
+  case: G => GL G; split=> // p; rewrite G.
+  have [->|Hne1] := eqVneq p (i + n)%N.
+    have -> : [&& (n <= i + n)%N, (i <= i + n - n)%N & (i + n - n < old)%N] by lia.
+    by rewrite addnK.
+  have [->|Hne2] := eqVneq p i.
+    have -> : [&& (n <= i)%N, (i <= i - n)%N & (i - n < old)%N] = false by lia.
+    by rewrite leqnn.
+  rewrite J.
+  have -> : [&& (n <= p)%N, (i.+1 <= p - n)%N & (p - n < old)%N] = [&& (n <= p)%N, (i <= p - n)%N & (p - n < old)%N].
+    by move/eqP: Hne1; move/eqP: Hne2; lia.
+  case: ifP => // _.
+  by have -> : (i < p)%N = (i <= p)%N by move/eqP: Hne2; lia.
+rewrite /shl_step; case Ez: (isz (c_nth i l)).
+  split=> // p.
+  have Z1 : den (c_nth i cs) = 0 by rewrite -Di; apply: den_isz.
+  have [->|Hne1] := eqVneq p (i + n)%N; first by rewrite Din Z1.
+  by have [->|Hne2] := eqVneq p i; rewrite // Di Z1.
+split; first by rewrite !c_upd_length.
+move=> p; rewrite !c_nth_upd c_upd_length.
+have Hl1 : Nat.ltb i (length l) by apply/Nat.ltb_lt; lia.
+have Hl2 : Nat.ltb (i + n) (length l) by apply/Nat.ltb_lt; lia.
+rewrite Hl1 Hl2 !andbT.
+have [->|Hne1] := eqVneq p (i + n)%N.
+  have -> : Nat.eqb i (i + n) = false by apply/Nat.eqb_neq; lia.
+  by rewrite Nat.eqb_refl Di.
+have [->|Hne2] := eqVneq p i; first by rewrite Nat.eqb_refl Din.
+have -> : Nat.eqb i p = false by apply/Nat.eqb_neq => E; move/eqP: Hne2; lia.
+by have -> : Nat.eqb (i + n) p = false by apply/Nat.eqb_neq => E; move/eqP: Hne1; lia.
+Qed.
+
+Lemma fold_left_foldl (A B : Type) (f : A -> B -> A) l a : fold_left f l a = foldl f a l.
+Proof. by elim: l a => [|b l IH] a //=. Qed.
+Lemma List_rev_rev (A : Type) (l : seq A) : List.rev l = rev l.
+Proof. by elim: l => [|a l IH] //=; rewrite IH rev_cons -cats1. Qed.
+
+Lemma c_nth_consS a l p : c_nth p.+1 (a :: l) = c_nth p l. Proof. by []. Qed.
+
+Lemma den_shl s0 x n : ok s0 -> den (c_shl K s0 x n) = den s0 * rho x ^+ n.
+Proof.
+move=> H0; rewrite /c_shl /c_shl_gen.
+case Ez: (isz s0); first by rewrite /= (den_isz Ez) mul0r.
+case: n => [|n] /=; first by rewrite expr0 mulr1.
+set old := match s0 with CNum _ => 1%N | CRec y size _ => if (y =? x)%num then size else 1%N end.
+have Hold : (1 <= old)%N.
+  rewrite /old; case: (s0) H0 => [//|y sz cs0] Hs0.
+  have [[H1 _] _] := proj1 (ok_rec_iff K rk _ _ _) Hs0.
+  by case: N.eqb_spec => _ //; lia.
+have Hcap : (1 <= old + n.+1)%N by lia.
+have Hok1 := @ok_ensure_capacity K rk x (old + n.+1) s0 H0 ltac:(lia).
+have Hden1 := den_ensure_capacity x H0 Hcap.
+have Hsz := ensure_capacity_size x (old + n.+1) s0.
+(* shape of the array after ensure_capacity *)
+have Hshape : match c_ensure_capacity x (old + n.+1) s0 with
+              | CRec y size cs => y = x /\ (forall p, (old <= p)%N -> den (c_nth p cs) = 0) /\
+                                  \sum_(k < old) den (c_nth k cs) * rho x ^+ k = den s0
+              | CNum _ => False end.
+  rewrite /c_ensure_capacity /old; case: (s0) H0 => [z|y sz cs0] Hs0.
+    split=> //; split=> [[|p] // _|]; last by rewrite big_ord1 expr0 mulr1.
+    by rewrite c_nth_consS c_nth_repeat.
+  have [[H1 H1'] [H2 H3]] := proj1 (ok_rec_iff K rk _ _ _) Hs0.
+  rewrite N.eqb_sym; case: N.eqb_spec => [Exy|Hne] /=.
+    subst y.
+    have Hslack p : (sz <= p)%N -> den (c_nth p cs0) = 0 by move=> Hp; apply: den_isz; apply: H3; lia.
+    case: (Nat.ltb (length cs0) _).
+      split=> //; split=> [p Hp|].
+        rewrite c_nth_app; case: Nat.ltb_spec => _; first exact: Hslack.
+        by rewrite c_nth_repeat.
+      rewrite used_sumE //; apply: eq_bigr => k _; rewrite c_nth_app.
+      by case: Nat.ltb_spec => //; have := ltn_ord k; lia.
+    by case: (Nat.ltb sz _); split=> //; split=> //; rewrite used_sumE.
+  split=> //; split=> [[|p] // _|]; last by rewrite big_ord1 expr0 mulr1.
+  by rewrite c_nth_consS; have -> : c_nth p [:: c_zero & repeat c_zero n] = c_zero by exact: (c_nth_repeat p n.+1).
+case E1: (c_ensure_capacity x (old + n.+1) s0) Hok1 Hden1 Hsz Hshape => [//|y size cs] Hok1 Hden1 Hsz [Ey [Hz Hsum]].
+subst y.
+have [[H1 H1'] [H2 H3]] := proj1 (ok_rec_iff K rk _ _ _) Hok1.
+rewrite fold_left_foldl List_rev_rev.
+have [] := @shl_loop_den n.+1 old cs ltac:(lia) _ Hz 0%N ltac:(lia); first by lia.
+rewrite subn0 => L J.
+rewrite c_den_rec -Hsum mulr_suml.
+rewrite (eq_bigr (fun p : 'I_size => if (n.+1 <= p < old + n.+1)%N then den (c_nth (p - n.+1) cs) * rho x ^+ p else 0)); last first.
+  move=> p _; rewrite J leq0n /=.
+  have -> : (n < p)%N && (p - n.+1 < old)%N = (n < p < old + n.+1)%N by lia.
+  by case: ifP => _; rewrite ?mul0r.
+rewrite -(big_mkord xpredT (fun p => if (n.+1 <= p < old + n.+1)%N then den (c_nth (p - n.+1) cs) * rho x ^+ p else 0)).
+rewrite (@big_cat_nat _ _ _ (old + n.+1)) //=; last by lia.
+rewrite [X in _ + X]big_nat_cond [X in _ + X]big1 ?addr0; last by move=> p /andP[Hp _]; have -> : (n.+1 <= p < old + n.+1)%N = false by lia.
+rewrite (@big_cat_nat _ _ _ n.+1) //=; last by lia.
+rewrite big_nat_cond big1 ?add0r; last by move=> p /andP[Hp _]; have -> : (n.+1 <= p < old + n.+1)%N = false by lia.
+rewrite -{1}[n.+1]add0n big_addn addnK big_mkord; apply: eq_bigr => k _.
+have -> : (n.+1 <= k + n.+1 < old + n.+1)%N by have := ltn_ord k; lia.
+by rewrite addnK exprD mulrA.
+Qed.
+
 End Spec.
 
 (* ------------------------------------------------------------------ the rank function of a variable order *)
@@ -562,6 +690,15 @@ move=> R rho; rewrite !(to_mpoly_den rho (compatZ R)).
 exact: (den_ensure_capacity rk rho (compatZ R)).
 Qed.
 
+Theorem c_shl_refines s0 x n : ok s0 ->
+  mp (c_shl None s0 x n) = mp_mul (mp s0) (mp_var_pow x (N.of_nat n)).
+Proof.
+move=> Hc; apply: mp_canonical_unique; first exact: to_mpoly_wf.
+  by apply: mp_wf_mul; [exact: to_mpoly_wf|rewrite /mp_var_pow /= mono_wf_var].
+move=> R rho; rewrite mp_den_shift Nat2N.id !(to_mpoly_den rho (compatZ R)).
+exact: (den_shl rk rho (compatZ R)).
+Qed.
+
 End RefineZ.
 
 (* Z_M: the same refinement, stated by denotation in every ring of characteristic dividing M *)
@@ -612,6 +749,13 @@ Theorem c_add_om_refines_Zm fuel m a c r : ok c -> c_add_om K rk fuel m a c = So
 Proof.
 move=> Hc E; rewrite /mp_reduce (mp_den_reduce _ _ HM HR) mp_den_add_term !(to_mpoly_den rho compatZm).
 by rewrite (den_add_om rho compatZm Hc E) addrC /term_den /= (mono_den_of_powers rho).
+Qed.
+
+Theorem c_shl_refines_Zm s0 x n : ok s0 ->
+  mp_den rho (mp (c_shl K s0 x n)) = mp_den rho (mp_reduce K (mp_mul (mp s0) (mp_var_pow x (N.of_nat n)))).
+Proof.
+move=> Hc; rewrite /mp_reduce (mp_den_reduce _ _ HM HR) mp_den_shift Nat2N.id !(to_mpoly_den rho compatZm).
+exact: (den_shl rk rho compatZm).
 Qed.
 
 End RefineZm.
